@@ -173,11 +173,17 @@ def handle (op : String) (inp : Json) : Json :=
             let r := dRecv.getD i (0, 0)
             (r.1 + s.1) % q == (if x.testBit i then alpha.1 else 0) &&
             (r.2 + s.2) % q == (if x.testBit i then alpha.2 else 0))]
+  | "extbig" =>
+    -- a batch beyond 2^16 rows: on every dumped row the receiver's pad is the sender's pad for its choice bit
+    let x := leNat (jhex inp "choices")
+    let rows := jarr inp "rows"
+    jobj [("choice", jstr inp "obsErr" == "" && !rows.isEmpty && rows.all fun r =>
+      jstr r "vc" == (if x.testBit (jnat r "i") then jstr r "v1" else jstr r "v0"))]
   | "mulseq" =>
     -- several multiplications on one setup with running context hashes: every use must succeed and its two shares add up
     -- to the product
     let runs := jarr inp "runs"
-    let okAll := runs.length == jnat inp "uses" && runs.all fun r =>
+    let okAll := jstr inp "obsErr" == "" && runs.length == jnat inp "uses" && runs.all fun r =>
       (unbe (jhex r "shareS") + unbe (jhex r "shareR")) % q == (unbe (jhex r "alpha") * unbe (jhex r "beta")) % q
     jobj [("sum", okAll), ("err", "")]
   | "mul" =>
